@@ -128,6 +128,45 @@ M = {
     "C19-6": ("regex text stripped before compiling", "regex with leading/trailing whitespace", "no such regex -> ' '"),
     "C20-5": ("an existing blank user file is treated as 'no config yet' and overwritten", "existing empty / whitespace-only file", ""),
     "C20-6": ("_merge drops a non-table user value over a default table", "user scalar where the default has a table", ""),
+    # ---- wave 4 (prompt listed the mechanisms of waves 1-3 as already collected) -------------------
+    "C01-7": ("memory delete removes by list.remove(event): equality, not identity", "two stored events with identical content, delete the later twin", "C01 had no content-twin histories; id/content histories with an exact model added"),
+    "C01-8": ("sqlite replace_last rewrites every event sharing max(starttime)", "two newest events starting at the same instant", "C01 only read back what it wrote last; replace_last with start ties added to the fidelity histories"),
+    "C02-7": ("memory replace keeps the id carried by the replacement object", "replace(id, event read earlier that carries another id)", "alphabet had no replacement carrying an id; rep_otherid / repl_otherid added"),
+    "C02-8": ("peewee bulk upsert through EventModel.bulk_update (one UPDATE per batch)", "one bulk call naming the same live id twice", "alphabet had no repeated id in one bulk call; ups_twice added"),
+    "C03-7": ("sqlite range queries bound starttime from below by window start - 24 h", "an event that started more than 86.4 s before the window start and reaches into it (the 24 h constant is in ms, the column in us)", ""),
+    "C03-8": ("peewee clipping: start and end cut became if/elif", "one event sticking out of the window on BOTH sides", "oracle accepted any sub-interval; now an event is unchanged or cut to the window on both sides"),
+    "C05-7": ("Bucket handle caches its metadata until update/delete through the registered handle", "handle kept across delete + re-create of the same id, then update through the datastore", "fresh and stale handles were not compared; describe/read through both, handle identity in the canonical form"),
+    "C05-8": ("sqlite update_bucket sorts the column names but not the values", "update of two fields whose alphabetical order differs from the parameter order (type + client)", "multi-field updates only covered ordered pairs; all field subsets enumerated"),
+    "C06-7": ("sqlite delete_bucket events statement rewritten as WITH ... DELETE (python sqlite3 does not open a transaction for it)", "crash between the two statements of delete_bucket on the lazy store", ""),
+    "C06-8": ("sqlite replace_last returns early (no conditional_commit) when rowcount == 1", "run of > 50 replace_last calls", ""),
+    "C07-7": ("sqlite _event_to_us uses timedelta.seconds (drops days) for the duration", "heartbeat-extended event growing past 24 h", "durations stopped below a day; 12 h lattice streams added"),
+    "C07-8": ("peewee DecimalField(auto_round=True) rounds the duration to 5 decimals", "microsecond-resolution duration at the pulsetime boundary", "durations were whole ms; microsecond-duration boundary streams added"),
+    "C08-7": ("heartbeat_reduce returns the input unreduced when pulsetime <= 0", "pulsetime 0 with overlapping / touching equal-data events", ""),
+    "C08-8": ("data equality replaced by len + b.get(key) == value", "data dicts of equal size with different keys whose values are None", "value alphabet had no null under differing keys; data-equality catalogue added"),
+    "C09-7": ("filter_period_intersect skips runs with bisect over end times (assumes ends sorted)", "zero-length event sharing its start with a longer one and listed after it", ""),
+    "C09-8": ("period_union skips an event starting at the same instant as the current one", "two events with equal start, the shorter first", ""),
+    "C10-7": ("flood skips pairs whose left event has zero duration", "short gap directly after a same-data forward merge", ""),
+    "C10-8": ("flood collects finished events in the loop and drops e1 when the gap is exactly 0 (continue before collecting)", "touching neighbours (gap 0)", ""),
+    "C11-7": ("scanner treats a backslash-escaped quote as escaped even for the other quote kind / ignores double_quote state", "dict literal holding a double-quoted string with an apostrophe, followed by more content", ""),
+    "C11-8": ("compiled Rule objects memoised on (regex, ignore_case) only", "two rules sharing regex but selecting different keys", "C11 had no categorize/tag programs with select_keys variation; rules_sel / tagrules_sel programs added"),
+    "C12-7": ("query_bucket_eventcount floors the window start to the millisecond", "window start off the millisecond grid + event ending inside that millisecond", "store and windows were whole seconds; sub-ms event ends and windows added"),
+    "C12-8": ("query_bucket drops events that start after the (exact) end instant", "event picked up only through Bucket.get's millisecond rounding of the window end", "same: sub-ms windows and an event starting on the next millisecond added; comparison on raw full dump"),
+    "C13-7": ("_timestamp_parse wrapped in lru_cache (fold is not part of datetime equality/hash)", "same wall-clock time with fold=0 and fold=1 in a DST zone", ""),
+    "C13-8": ("to_json_dict strips the last three microsecond digits positionally", "timestamp in the first millisecond of a second (isoformat has no fraction)", ""),
+    "C14-7": ("migration re-encodes event data through utf-8 (raises / drops on lone surrogates)", "legacy event data with an unpaired surrogate", "catalogue had no lone surrogate; added (also C01)"),
+    "C14-8": ("legacy database located by glob + newest/last match", "backup copy peewee-sqlite.v2.backup.db next to the legacy database", "environment had exactly one candidate file; decoy backup file added"),
+    "C15-7": ("union_no_overlap tests intersection through timeslot periods", "zero-length list-one event on the start of a list-two event", ""),
+    "C15-8": ("union_no_overlap compares float epoch seconds", "millisecond grid (23 ms unit) with shared edges", "embedding units were float-friendly; 23 ms embedding added"),
+    "C16-7": ("merge_events_by_keys skips zero-length events", "key combination occurring only on zero-length events", ""),
+    "C16-8": ("exclude_keyvals returns [] early for an empty value list", "empty list of values", ""),
+    "C17-7": ("argument-count TypeError no longer translated for the datastore-injected functions", "query_bucket / find_bucket / query_bucket_eventcount with too many arguments", ""),
+    "C17-8": ("shared bracket scanner returns None for an unclosed list/dict; string[:None] makes no progress", "unclosed [ or { nested inside a balanced call", "the check found it but spent 5 s per hanging text and ran out its clock; units now stop after two hangs, the run after three such units"),
+    "C18-7": ("last_commit restarted whenever the buffer is empty", "write on an idle store with an empty buffer > 10 s after the last flush", "harness treated an empty buffer as a flush; only COMMITs (and store open) count now"),
+    "C18-8": ("commit bookkeeping moved to class attributes shared by all SqliteStorage instances", "two lazily committing stores in one process", ""),
+    "C19-7": ("rules grouped by select_keys and evaluated group by group", "three rules, first and third with the same select_keys, second different, all matching", "3-rule lists had no select_keys variation; sel24 (3) and tiny9 (4) alphabets added"),
+    "C19-8": ("Rule.__init__ pops its options out of the caller's dict", "Rule built twice from the same dict (rule list reused)", "each call built fresh dicts; one set of dicts / Rule objects now shared across the three calls"),
+    "C20-7": ("first-run write asserts that the dumped defaults parse to a non-empty table count", "defaults with top-level keys only", ""),
+    "C20-8": ("_merge takes a user table whole once it sets every key of the default table", "user table covering all default keys but only part of a nested table", ""),
 }
 
 
